@@ -216,6 +216,7 @@ func (p *c03) RunCase(ctx *runner.Ctx) runner.CaseResult {
 	adapter := adapt.Adapters[idx%2]
 	if idx < 2 {
 		p.legacyUpdates(x, adapter, ctx)
+		p.transactions(x, adapter, ctx)
 	}
 	late := idx%3 == 0 // indexes created late on a non-empty table
 	if idx%4 == 1 {
@@ -435,6 +436,97 @@ func (p *c03) legacyUpdates(x *res, adapter string, ctx *runner.Ctx) {
 					break
 				}
 			}
+		}
+	}
+}
+
+// c03Mirror judges the indexes from the base table itself: an index holds exactly the base items that have all of its
+// key attributes, and DescribeTable counts them. Returns a description of the first disagreement ("" = none).
+func c03Mirror(cl adapt.Client, spec adapt.TableSpec) string {
+	base := cl.Do(adapt.Op{Kind: adapt.OpScan, Table: spec.Name})
+	desc := cl.Do(adapt.Op{Kind: adapt.OpDescribe, Table: spec.Name})
+	for _, ix := range spec.Indexes {
+		want := []string{}
+		for _, it := range base.Items {
+			_, hasH := it[ix.Hash]
+			_, hasR := it[ix.Range]
+			if hasH && (ix.Range == "" || hasR) {
+				want = append(want, it.Canon())
+			}
+		}
+		sort.Strings(want)
+		sc := cl.Do(adapt.Op{Kind: adapt.OpScan, Table: spec.Name, Index: ix.Name})
+		have := []string{}
+		for _, it := range sc.Items {
+			have = append(have, it.Canon())
+		}
+		sort.Strings(have)
+		cnt := int64(-1)
+		if desc.Desc != nil {
+			for _, d := range desc.Desc.Indexes {
+				if d.Name == ix.Name && d.HasCnt {
+					cnt = d.Count
+				}
+			}
+		}
+		if strings.Join(have, "\n") != strings.Join(want, "\n") || (cnt >= 0 && cnt != int64(len(want))) {
+			return fmt.Sprintf("index %s returns %v and DescribeTable counts %d; the base table holds %v with its key attributes", ix.Name, have, cnt, want)
+		}
+	}
+	return ""
+}
+
+// transactions: TransactWriteItems with Put and Delete actions (plain and conditional) on an indexed table - a
+// transaction that completes, one whose LAST action is refused by its condition after earlier actions changed index
+// entries, one whose first action is refused. Whatever the library makes of the call (it may ignore the actions:
+// the call is a documented stub), afterwards every index mirrors the base table, and a transaction that reports a
+// failure has changed nothing.
+func (p *c03) transactions(x *res, adapter string, ctx *runner.Ctx) {
+	spec := ixSpec("tbl03t", true)
+	it := func(h, r, g, s string) val.Item {
+		o := val.Item{"h": val.Str(h), "r": val.Str(r)}
+		if g != "" {
+			o["g"] = val.Str(g)
+		}
+		if s != "" {
+			o["s"] = val.Str(s)
+		}
+		return o
+	}
+	key := func(o val.Item) val.Item { return val.Item{"h": o["h"], "r": o["r"]} }
+	a, b, c := it("p", "1", "x", "1"), it("p", "2", "y", "9"), it("pq", "1", "x", "")
+	refused := adapt.TransactAct{Table: spec.Name, Put: it("pq", "1", "z", "5"), Cond: "attribute_not_exists(h)"}
+	changes := []adapt.TransactAct{{Table: spec.Name, Put: it("p", "3", "y", "1")}, {Table: spec.Name, Put: it("p", "1", "y", "10")}, {Table: spec.Name, Del: key(b)}}
+	shapes := map[string][]adapt.TransactAct{
+		"completes":           append(append([]adapt.TransactAct{}, changes...), adapt.TransactAct{Table: spec.Name, Put: it("pq", "2", "x", "1"), Cond: "attribute_not_exists(h)"}),
+		"last-action-refused": append(append([]adapt.TransactAct{}, changes...), refused),
+		"first-action-refused": append([]adapt.TransactAct{refused}, changes...),
+		"middle-action-refused": {changes[0], refused, changes[1], changes[2]},
+	}
+	for name, acts := range shapes {
+		cl, _, ds := freshClient(adapter, spec)
+		if ds != nil {
+			return
+		}
+		for _, o := range []val.Item{a, b, c} {
+			cl.Do(adapt.Op{Kind: adapt.OpPut, Table: spec.Name, Item: o})
+		}
+		before := adapt.ItemsCanon(cl.Do(adapt.Op{Kind: adapt.OpScan, Table: spec.Name}).Items)
+		got := cl.Do(adapt.Op{Kind: adapt.OpTransact, Acts: acts})
+		x.r.Evals += 2
+		x.r.Counters["transactions_on_indexed_tables"]++
+		x.fp(true, "%s|transaction|%s", adapter, name)
+		wit := map[string]interface{}{"adapter": adapter, "shape": name, "actions": acts, "outcome": got}
+		if got.Class == adapt.ClsRuntime {
+			x.viol("runtime-panic", got.Site, fmt.Sprintf("[%s] TransactWriteItems (%s) panics: %s", adapter, name, got.Msg), wit)
+			continue
+		}
+		if bad := c03Mirror(cl, spec); bad != "" {
+			x.viol("index-stale-after-transaction", name+"/"+got.Class, fmt.Sprintf("[%s] after TransactWriteItems (%s, answered %s): %s", adapter, name, got.Class, bad), wit)
+			continue
+		}
+		if after := adapt.ItemsCanon(cl.Do(adapt.Op{Kind: adapt.OpScan, Table: spec.Name}).Items); got.Class != adapt.ClsOK && after != before {
+			x.viol("failed-transaction-left-trace", name, fmt.Sprintf("[%s] TransactWriteItems (%s) failed with %s but the table changed from %s to %s", adapter, name, got.Class, before, after), wit)
 		}
 	}
 }
